@@ -6,19 +6,19 @@
      Display of BuildProfile (debian-control/src/relations.rs).
    satisfied_by is not in scope (C12).
 
-   THE MAIN DEFINITIONS TRANSCRIBE THE CODE *WITH* proposed_fixes/C14-lossy-relations.patch APPLIED
-   (three small changes, DESIGN §5 rows 12, 13, 19, 30):
-     - the architecture loop accepts NOT IDENT and stores the architecture as "!name"
-       (before: `[!amd64]` was rejected with "Expected architecture name");
-     - a profile group `<...>` is read by ONE loop until R_ANGLE, terms separated by whitespace
-       (before: three nested loops with COMMA as the separator: `<a b>` was read as the two
-       groups [a] [b], `< x >` as two EMPTY groups with `x` silently dropped);
-     - Display writes the terms of a group separated by " " (before: ", ", which neither reader
-       accepts: Relations::from_str splits the text at every ',' first).
-   The code as it is in /repo before the patch is kept below as [old_*] (section "pre-fix code"),
-   transcribed just as carefully, so that the defects are theorems about a faithful model
-   (proofs/RelLossyP.v: [old_*_refuted]) and can be replayed: the correspondence streams
-   rel-lossy-old / rel-lossy-text-old compare [old_*] with an unpatched /repo.
+   THE MAIN DEFINITIONS TRANSCRIBE THE CODE OF /repo 5517d72 *WITH* proposed_fixes/C14-lossy-newlines.patch
+   APPLIED (audit A4): NEWLINE is white space for the token reader wherever WHITESPACE is
+   (eat_whitespace, the end of the version, inside [...] and <...>), and blanks are skipped between
+   ':' and the architecture qualifier — a folded field ("a\n (>= 1)") is read like the lossless
+   reader reads it.  Two earlier generations of the reader are kept, transcribed just as carefully,
+   so that the defects are theorems about faithful models and can be replayed on an unpatched tree:
+     [oldnl_*]  the reader of /repo 5517d72, before that patch (C14_old_newline_refuted; streams
+                rel-lossy-oldnl / rel-lossy-text-oldnl, C14_MODEL=oldnl);
+     [old_*]    reader and printer of /repo 2e5530c, before a2c6991 (negated architectures: `[!amd64]`
+                was rejected), 7cd890b (one loop per `<...>` with blanks as separator: `<a b>` was read
+                as two groups, `< x >` as two EMPTY groups; Display wrote ", " between terms) and 3e262bf
+                (blanks before ')'); proofs/RelLossyP.v: [old_*_refuted]; streams rel-lossy-old /
+                rel-lossy-text-old, C14_MODEL=old.
 
    `debversion::Version` is an external crate.  The reader and the printers are parametrised by
    its FromStr / Display ([vparse], [vprint], section variables), and the theorems hold for every
@@ -97,9 +97,14 @@ Definition profile_print (p : bprofile) : str :=
 
 Notation toks := (list (rkind * str)).
 
-(* fn eat_whitespace: while let Some((WHITESPACE, _)) = tokens.peek() { tokens.next(); } *)
+(* fn eat_whitespace: while let Some((WHITESPACE | NEWLINE, _)) = tokens.peek() { tokens.next(); }
+   [patched, proposed_fixes/C14-lossy-newlines.patch: a folded field has line breaks wherever blanks may be] *)
 Fixpoint eat_whitespace (ts : toks) : toks :=
-  match ts with (WHITESPACE, _) :: r => eat_whitespace r | _ => ts end.
+  match ts with
+  | (WHITESPACE, _) :: r => eat_whitespace r
+  | (NEWLINE, _) :: r => eat_whitespace r
+  | _ => ts
+  end.
 
 (* error codes (the streams print ERR for all of them; kept apart for readability):
    1 package name  2 architecture qualifier  3 version constraint  4 token inside the version
@@ -117,8 +122,8 @@ Section Reader.
   (* let archqual = if let Some((COLON, _)) = tokens.peek() { tokens.next(); match tokens.next() {..} } *)
   Definition read_archqual (ts : toks) : res (option str * toks) :=
     match ts with
-    | (COLON, _) :: r =>
-      match r with (IDENT, s) :: r' => Ok (Some s, r') | _ => Err 2%N end
+    | (COLON, _) :: r =>                                       (* [patched] eat_whitespace after the ':' *)
+      match eat_whitespace r with (IDENT, s) :: r' => Ok (Some s, r') | _ => Err 2%N end
     | _ => Ok (None, ts)
     end.
 
@@ -140,6 +145,7 @@ Section Reader.
     | [] => Ok (acc, [])
     | (R_PARENS, _) :: _ => Ok (acc, ts)
     | (WHITESPACE, _) :: _ => Ok (acc, ts)
+    | (NEWLINE, _) :: _ => Ok (acc, ts)                          (* [patched] R_PARENS | WHITESPACE | NEWLINE => break *)
     | (IDENT, s) :: r => read_version_string r (acc ++ s)
     | (COLON, s) :: r => read_version_string r (acc ++ s)
     | _ => Err 4%N
@@ -178,6 +184,7 @@ Section Reader.
     | (NOT, _) :: (IDENT, s) :: r => read_archs r (acc ++ [33%N :: s])
     | (IDENT, s) :: r => read_archs r (acc ++ [s])
     | (WHITESPACE, _) :: r => read_archs r acc
+    | (NEWLINE, _) :: r => read_archs r acc                      (* [patched] Some((WHITESPACE | NEWLINE, _)) => {} *)
     | (R_BRACKET, _) :: r => Ok (acc, r)
     | _ => Err 7%N
     end.
@@ -200,6 +207,7 @@ Section Reader.
     | (NOT, _) :: (IDENT, s) :: r => read_profile_group r (acc ++ [Disabled s])
     | (IDENT, s) :: r => read_profile_group r (acc ++ [Enabled s])
     | (WHITESPACE, _) :: r => read_profile_group r acc
+    | (NEWLINE, _) :: r => read_profile_group r acc              (* [patched] *)
     | (R_ANGLE, _) :: r => Ok (acc, r)
     | _ => Err 8%N
     end.
@@ -310,6 +318,178 @@ Arguments print_relation {V} vprint r.
 Arguments print_entry {V} vprint e.
 Arguments print_relations {V} vprint rs.
 
+(* ------------------------------------------------------------------ the code before the newline fix *)
+(* The reader as it is in /repo 5517d72, BEFORE proposed_fixes/C14-lossy-newlines.patch: white space
+   is the WHITESPACE token only, so a line break inside a relation ("a\n (>= 1)", "a [\n b]") is
+   rejected, and nothing may stand between ':' and the architecture qualifier.  The streams
+   rel-lossy-oldnl / rel-lossy-text-oldnl compare these definitions with an unpatched tree. *)
+Fixpoint oldnl_eat_whitespace (ts : toks) : toks :=
+  match ts with (WHITESPACE, _) :: r => oldnl_eat_whitespace r | _ => ts end.
+
+Section OldNlReader.
+  Variable V : Type.
+  Variable vparse : str -> option V.   (* <debversion::Version as FromStr>::from_str; None = Err *)
+
+  (* let archqual = if let Some((COLON, _)) = tokens.peek() { tokens.next(); match tokens.next() {..} } *)
+  Definition oldnl_read_archqual (ts : toks) : res (option str * toks) :=
+    match ts with
+    | (COLON, _) :: r =>
+      match r with (IDENT, s) :: r' => Ok (Some s, r') | _ => Err 2%N end
+    | _ => Ok (None, ts)
+    end.
+
+  (* while let Some((kind, s)) = tokens.peek() { match kind { R_PARENS | WHITESPACE => break,
+       IDENT | COLON => version_string.push_str(s), n => return Err(..) } tokens.next(); }
+     (WHITESPACE since /repo 3e262bf: "a (>= 1 )" is accepted; the blanks are eaten by the
+     oldnl_eat_whitespace that follows the loop) *)
+  Fixpoint oldnl_read_version_string (ts : toks) (acc : str) : res (str * toks) :=
+    match ts with
+    | [] => Ok (acc, [])
+    | (R_PARENS, _) :: _ => Ok (acc, ts)
+    | (WHITESPACE, _) :: _ => Ok (acc, ts)
+    | (IDENT, s) :: r => oldnl_read_version_string r (acc ++ s)
+    | (COLON, s) :: r => oldnl_read_version_string r (acc ++ s)
+    | _ => Err 4%N
+    end.
+
+  (* let version = if let Some((L_PARENS, _)) = tokens.peek() { ... Some((constraint, version)) } else { None }; *)
+  Definition oldnl_read_version (ts : toks) : res (option (vconstraint * V) * toks) :=
+    match ts with
+    | (L_PARENS, _) :: r =>
+      let '(c, r1) := read_constraint (oldnl_eat_whitespace r) [] in
+      match vc_of_str c with                                   (* constraint.parse()? *)
+      | None => Err 3%N
+      | Some vc =>
+        match oldnl_read_version_string (oldnl_eat_whitespace r1) [] with
+        | Ok (vs, r2) =>
+          match vparse vs with                                 (* version_string.parse().map_err(..)? *)
+          | None => Err 5%N
+          | Some v =>
+            match oldnl_eat_whitespace r2 with                       (* if let Some((R_PARENS, _)) = tokens.next() *)
+            | (R_PARENS, _) :: r3 => Ok (Some (vc, v), r3)
+            | _ => Err 6%N
+            end
+          end
+        | Err e => Err e | Panic n => Panic n | OutOfFuel => OutOfFuel
+        end
+      end
+    | _ => Ok (None, ts)
+    end.
+
+  (* [patched] loop { match tokens.next() {
+       Some((NOT, _)) => match tokens.next() { Some((IDENT, s)) => archs.push(format!("!{}", s)), _ => return Err(..) },
+       Some((IDENT, s)) => archs.push(s), Some((WHITESPACE, _)) => {}, Some((R_BRACKET, _)) => break,
+       _ => return Err(..) } } *)
+  Fixpoint oldnl_read_archs (ts : toks) (acc : list str) : res (list str * toks) :=
+    match ts with
+    | (NOT, _) :: (IDENT, s) :: r => oldnl_read_archs r (acc ++ [33%N :: s])
+    | (IDENT, s) :: r => oldnl_read_archs r (acc ++ [s])
+    | (WHITESPACE, _) :: r => oldnl_read_archs r acc
+    | (R_BRACKET, _) :: r => Ok (acc, r)
+    | _ => Err 7%N
+    end.
+
+  Definition oldnl_read_architectures (ts : toks) : res (option (list str) * toks) :=
+    match ts with
+    | (L_BRACKET, _) :: r =>
+      match oldnl_read_archs r [] with
+      | Ok (a, r') => Ok (Some a, r')
+      | Err e => Err e | Panic n => Panic n | OutOfFuel => OutOfFuel
+      end
+    | _ => Ok (None, ts)
+    end.
+
+  (* [patched] the body of one <...> group: loop { match tokens.next() {
+       Some((NOT, _)) => { IDENT expected; push Disabled }, Some((IDENT, s)) => push Enabled,
+       Some((WHITESPACE, _)) => {}, Some((R_ANGLE, _)) => break, _ => return Err(..) } } *)
+  Fixpoint oldnl_read_profile_group (ts : toks) (acc : list bprofile) : res (list bprofile * toks) :=
+    match ts with
+    | (NOT, _) :: (IDENT, s) :: r => oldnl_read_profile_group r (acc ++ [Disabled s])
+    | (IDENT, s) :: r => oldnl_read_profile_group r (acc ++ [Enabled s])
+    | (WHITESPACE, _) :: r => oldnl_read_profile_group r acc
+    | (R_ANGLE, _) :: r => Ok (acc, r)
+    | _ => Err 8%N
+    end.
+
+  (* while let Some((L_ANGLE, _)) = tokens.peek() { tokens.next(); <group>; profiles.push(profile);
+       oldnl_eat_whitespace(&mut tokens); }      — a loop whose body returns the iterator: fuel *)
+  Fixpoint oldnl_read_profiles (fuel : nat) (ts : toks) (acc : list (list bprofile))
+    : res (list (list bprofile) * toks) :=
+    match ts with
+    | (L_ANGLE, _) :: r =>
+      match fuel with
+      | O => OutOfFuel
+      | S f =>
+        match oldnl_read_profile_group r [] with
+        | Ok (g, r') => oldnl_read_profiles f (oldnl_eat_whitespace r') (acc ++ [g])
+        | Err e => Err e | Panic n => Panic n | OutOfFuel => OutOfFuel
+        end
+      end
+    | _ => Ok (acc, ts)
+    end.
+
+  (* the body of <lossy::Relation as FromStr>::from_str after lex(s) *)
+  Definition oldnl_relation_from_tokens (ts : toks) : res (relation V) :=
+    bind (read_name ts) (fun '(name, t1) =>
+    bind (oldnl_read_archqual (oldnl_eat_whitespace t1)) (fun '(aq, t2) =>
+    bind (oldnl_read_version (oldnl_eat_whitespace t2)) (fun '(ver, t3) =>
+    bind (oldnl_read_architectures (oldnl_eat_whitespace t3)) (fun '(archs, t4) =>
+    bind (oldnl_read_profiles (S (length t4)) (oldnl_eat_whitespace t4) []) (fun '(profs, t5) =>
+    match oldnl_eat_whitespace t5 with
+    | [] => Ok (mkRel name aq archs ver profs)
+    | _ :: _ => Err 9%N                                        (* Unexpected token *)
+    end))))).
+
+  (* <lossy::Relation as FromStr>::from_str *)
+  Definition oldnl_relation_from_str (s : str) : res (relation V) :=
+    bind (rlex s) oldnl_relation_from_tokens.
+
+  (* entry.split('|').map(|relation| { let relation = relation.trim(); if relation.is_empty()
+       { return Err("Empty relation") } relation.parse() }).collect::<Result<Vec<_>, _>>()
+     — lazy: stops at the first error *)
+  Fixpoint oldnl_read_alternatives (ps : list str) : res (list (relation V)) :=
+    match ps with
+    | [] => Ok []
+    | p :: rest =>
+      let p' := trim p in
+      match p' with
+      | [] => Err 10%N
+      | _ :: _ =>
+        bind (oldnl_relation_from_str p') (fun r =>
+        bind (oldnl_read_alternatives rest) (fun rs => Ok (r :: rs)))
+      end
+    end.
+
+  (* for entry in s.split(',') { let entry = entry.trim(); if entry.is_empty() { continue; } ...
+       relations.push(entry_relations.collect::<Result<Vec<_>, _>>()?); } *)
+  Fixpoint oldnl_read_entries (es : list str) : res (list (list (relation V))) :=
+    match es with
+    | [] => Ok []
+    | e :: rest =>
+      let e' := trim e in
+      match e' with
+      | [] => oldnl_read_entries rest
+      | _ :: _ =>
+        bind (oldnl_read_alternatives (split_on 124%N e')) (fun alts =>
+        bind (oldnl_read_entries rest) (fun ents => Ok (alts :: ents)))
+      end
+    end.
+
+  (* <lossy::Relations as FromStr>::from_str *)
+  Definition oldnl_relations_from_str (s : str) : res (list (list (relation V))) :=
+    match s with
+    | [] => Ok []                                              (* if s.is_empty() *)
+    | _ :: _ => oldnl_read_entries (split_on 44%N s)
+    end.
+End OldNlReader.
+
+Arguments oldnl_read_version {V} vparse ts.
+Arguments oldnl_relation_from_tokens {V} vparse ts.
+Arguments oldnl_relation_from_str {V} vparse s.
+Arguments oldnl_read_alternatives {V} vparse ps.
+Arguments oldnl_read_entries {V} vparse es.
+Arguments oldnl_relations_from_str {V} vparse s.
+
 (* ------------------------------------------------------------------ pre-fix code *)
 (* The reader and the printer as they are in /repo BEFORE proposed_fixes/C14-lossy-relations.patch.
    Only the places that the fixes touch differ (a2c6991 negated architectures, 7cd890b restriction
@@ -331,16 +511,16 @@ Section OldReader.
   Definition old_read_version (ts : toks) : res (option (vconstraint * V) * toks) :=
     match ts with
     | (L_PARENS, _) :: r =>
-      let '(c, r1) := read_constraint (eat_whitespace r) [] in
+      let '(c, r1) := read_constraint (oldnl_eat_whitespace r) [] in
       match vc_of_str c with
       | None => Err 3%N
       | Some vc =>
-        match old_read_version_string (eat_whitespace r1) [] with
+        match old_read_version_string (oldnl_eat_whitespace r1) [] with
         | Ok (vs, r2) =>
           match vparse vs with
           | None => Err 5%N
           | Some v =>
-            match eat_whitespace r2 with
+            match oldnl_eat_whitespace r2 with
             | (R_PARENS, _) :: r3 => Ok (Some (vc, v), r3)
             | _ => Err 6%N
             end
@@ -395,7 +575,7 @@ Section OldReader.
     end.
 
   (* middle loop: loop { let mut profile = Vec::new(); <innermost loop>; profiles.push(profile);
-       if let Some((R_ANGLE, _)) = tokens.next() { eat_whitespace(&mut tokens); break; } }
+       if let Some((R_ANGLE, _)) = tokens.next() { oldnl_eat_whitespace(&mut tokens); break; } }
      — when the token after the terms is not R_ANGLE it is consumed and the loop goes round *)
   Fixpoint old_profile_groups (fuel : nat) (ts : toks) (acc : list (list bprofile))
     : res (list (list bprofile) * toks) :=
@@ -405,7 +585,7 @@ Section OldReader.
       match old_profile_terms ts [] with
       | Ok (g, r) =>
         match r with
-        | (R_ANGLE, _) :: r' => Ok (acc ++ [g], eat_whitespace r')
+        | (R_ANGLE, _) :: r' => Ok (acc ++ [g], oldnl_eat_whitespace r')
         | _ :: r' => old_profile_groups f r' (acc ++ [g])
         | [] => old_profile_groups f [] (acc ++ [g])
         end
@@ -431,11 +611,11 @@ Section OldReader.
 
   Definition old_relation_from_tokens (ts : toks) : res (relation V) :=
     bind (read_name ts) (fun '(name, t1) =>
-    bind (read_archqual (eat_whitespace t1)) (fun '(aq, t2) =>
-    bind (old_read_version (eat_whitespace t2)) (fun '(ver, t3) =>
-    bind (old_read_architectures (eat_whitespace t3)) (fun '(archs, t4) =>
-    bind (old_read_profiles (S (length t4)) (eat_whitespace t4) []) (fun '(profs, t5) =>
-    match eat_whitespace t5 with
+    bind (oldnl_read_archqual (oldnl_eat_whitespace t1)) (fun '(aq, t2) =>
+    bind (old_read_version (oldnl_eat_whitespace t2)) (fun '(ver, t3) =>
+    bind (old_read_architectures (oldnl_eat_whitespace t3)) (fun '(archs, t4) =>
+    bind (old_read_profiles (S (length t4)) (oldnl_eat_whitespace t4) []) (fun '(profs, t5) =>
+    match oldnl_eat_whitespace t5 with
     | [] => Ok (mkRel name aq archs ver profs)
     | _ :: _ => Err 9%N
     end))))).
